@@ -255,6 +255,22 @@ def teval(t: Term, env: dict):
             raise
         except Exception as e:
             raise Unknown(f"{op}: {e}")
+    if op == "fmt" and len(a) in (2, 3):
+        try:
+            v_ = ev(a[0])
+            conv = ev(a[2]) if len(a) == 3 else -1
+            v_ = {114: repr, 115: str, 97: ascii}[conv](v_) if conv in (114, 115, 97) else v_
+            return format(v_, ev(a[1]) or "")
+        except Unknown:
+            raise
+        except Exception as e:
+            raise Unknown(f"fmt: {e}")
+    if op == "call" and a and isinstance(a[0], Ref) and a[0].kind == "func" and a[0].obj.name in env.get("__calls__", {}):
+        # a repository function the caller of teval has given a stand-in for (an opaque callee of the evaluated function)
+        args = []
+        for x in a[1:]:
+            args.append(None if isinstance(x, Sym) and x.name in ("param:self", "param:cls") else ev(x))
+        return env["__calls__"][a[0].obj.name](*args)
     if op == "list":
         return [ev(x) for x in a]
     if op == "tuple":
